@@ -562,6 +562,10 @@ func normaliseValue(v any) any {
 		return float64(t)
 	case int64:
 		return float64(t)
+	case int32:
+		return float64(t)
+	case uint64:
+		return float64(t)
 	case []any:
 		out := make([]any, len(t))
 		for i, x := range t {
